@@ -134,3 +134,28 @@ Proof. split; [apply isort_sorted; [apply key_leb_total|apply key_leb_trans]|app
 
 Theorem sort_keys_idempotent keys : sort_keys (sort_keys keys) = sort_keys keys.
 Proof. apply isort_idempotent; [apply key_leb_total|apply key_leb_trans|apply key_leb_antisym]. Qed.
+
+(* ---- table directory tags *)
+Lemma nleb_total a b : N.leb a b = true \/ N.leb b a = true.
+Proof. destruct (N.leb_spec a b); [left; reflexivity|right; apply N.leb_le; lia]. Qed.
+Lemma nleb_trans a b c : N.leb a b = true -> N.leb b c = true -> N.leb a c = true.
+Proof. rewrite !N.leb_le. lia. Qed.
+Lemma nleb_antisym a b : N.leb a b = true -> N.leb b a = true -> a = b.
+Proof. rewrite !N.leb_le. lia. Qed.
+
+Theorem sort_tags_order_independent tags tags' : Permutation tags tags' -> sort_tags tags = sort_tags tags'.
+Proof. apply isort_order_independent; [apply nleb_total|apply nleb_trans|apply nleb_antisym]. Qed.
+
+Lemma ns_eqb_eq l1 : forall l2, ns_eqb l1 l2 = true -> l1 = l2.
+Proof.
+  induction l1 as [|a t IH]; intros [|b t2]; cbn; try discriminate; [reflexivity|].
+  rewrite andb_true_iff, N.eqb_eq. intros [H1 H2]. apply IH in H2. subst. reflexivity.
+Qed.
+
+Theorem dir_order_ok_canonical tags : dir_order_ok tags = true ->
+  forall tags', Permutation tags tags' -> sort_tags tags' = tags.
+Proof.
+  unfold dir_order_ok. rewrite andb_true_iff. intros [H _] tags' HP. apply ns_eqb_eq in H.
+  transitivity (sort_tags (rev tags)); [|exact H]. apply sort_tags_order_independent.
+  eapply perm_trans; [apply Permutation_sym; exact HP|apply Permutation_rev].
+Qed.
